@@ -313,12 +313,16 @@ def mon_C07(walk, d):
         for k, p in enumerate(c.packets):
             if p["kind"] == "disconnect" and k != len(c.packets) - 1:
                 out.append(("packet-after-disconnect", f"{c.packets[k + 1]['kind']} sent after DISCONNECT on connection {c.index}", c.packets[k + 1]["first_step"]))
-        if c.spec_n is not None and c.leftover == 0 and c.spec_n != len(c.packets):
-            out.append(("malformed-packet", f"reference decoder stops after {c.spec_n} of {len(c.packets)} packets on connection {c.index}", c.open_step))
         # CONNECT content
         v = c.packets[0].get("view")
         if v and c.packets[0]["kind"] == "connect":
             out += check_connect(walk, d, c, v)
+        elif c.packets[0]["kind"] == "connect" and not walk.v5:
+            # a CONNECT the reference decoder refuses: still judge the one clause that can be read off the raw bytes, the
+            # 3.1.1 rule that a zero-byte client identifier goes with CleanSession = 1
+            body = split_packets(c.stream)[0][0][1]
+            if len(body) >= 12 and ((body[10] << 8) | body[11]) == 0 and not (body[7] & 0x02):
+                out.append(("clean-start", f"connection {c.index}: 3.1.1 CONNECT with a zero-byte client identifier and CleanSession = 0", c.open_step))
     # a connection never reaches Connected without a successful CONNACK: every snapshot
     for i, (o, note) in enumerate(zip(walk.out, walk.notes)):
         if note.get("kind") == "snap":
@@ -339,6 +343,9 @@ def check_connect(walk, d, c, view):
         not any(walk.notes[i].get("kind") in ("reset", "final-reset") for i in range(last_success_step(d, c), c.open_step))
     rejoin = kv_get(ckv, "rejoin", "post")
     want_clean = {"post": "0" if prior_success else "1", "always": "0", "never": "1"}[rejoin]
+    if not walk.v5 and kv_get(kv, "cid", "x") == "x":
+        # a 3.1.1 CONNECT with a zero-byte client identifier has no choice: CleanSession must be 1 [MQTT-3.1.3-7]
+        want_clean = "1"
     if kv_get(kv, "clean") != want_clean:
         out.append(("clean-start", f"connection {c.index}: clean start {kv_get(kv, 'clean')} but policy {rejoin} with prior success={prior_success}", c.open_step))
     if kv_get(kv, "ka") != kv_get(ckv, "ka", "0"):
@@ -776,6 +783,21 @@ def mon_C16(walk, d):
                     out.append(("wildcard-unavailable", "wildcard subscription written although the server announced Wildcard Subscription Available = 0", p["last_step"]))
                 if caps.get("ssa") == 0 and any(f.startswith(b"$share/") for f in filters):
                     out.append(("shared-unavailable", "shared subscription written although the server announced Shared Subscription Available = 0", p["last_step"]))
+    # the will is a user-built message too: a will whose topic (or response topic) is not a topic name never reaches the wire
+    ckv = walk.connect_kv
+    wt = kv_get(ckv, "w.topic")
+    if wt is not None:
+        bad = []
+        for key, val in (("topic", wt), ("response topic", kv_get(ckv, "w.rt"))):
+            if val is not None:
+                b = unhex(val)
+                if len(b) == 0 or b"#" in b or b"+" in b or b"\x00" in b:
+                    bad.append(key)
+        if bad:
+            for c in d["conns"]:
+                if c.packets and c.packets[0]["kind"] == "connect":
+                    out.append(("invalid-will-sent", f"a CONNECT whose will has an invalid {' and '.join(bad)} was written on connection {c.index}", c.packets[0]["last_step"]))
+                    break
     # operations failed by send-time validation must violate a limit of the connection they were dequeued on
     for idx, lst in d["completions"].items():
         step, t, outcome = lst[0]
@@ -1165,12 +1187,39 @@ def with_wf(prop, fn):
     return run
 
 
+def mon_C02(walk, d):
+    """engine level: every packet the engine writes on a connection (the CONNECT it builds from the options, user packets,
+    acknowledgements, pings) is accepted by the reference decoder of the negotiated version"""
+    out = []
+    for c in d["conns"]:
+        if c.spec_n is None or c.spec_n >= len(c.packets):
+            continue
+        p = c.packets[c.spec_n]
+        detail = f"reference decoder rejects packet {c.spec_n} ({p['kind']}) of connection {c.index}"
+        clause = "reference-decoder-disagrees"
+        if p["kind"] == "connect" and not walk.v5:
+            # name the broken rule of the 3.1.1 CONNECT (stable part of a finding's signature)
+            pos = sum(q["len"] for q in c.packets[:c.spec_n])
+            pkts, _, _ = split_packets(c.stream[pos:pos + p["len"]])
+            body = pkts[0][1]
+            flags = body[7]
+            cid_len = (body[10] << 8) | body[11]
+            if (flags & 0x40) and not (flags & 0x80):
+                detail += ": Password flag without User Name flag [MQTT-3.1.2-22]"
+                clause = "connect311-password-without-username"
+            elif cid_len == 0 and not (flags & 0x02):
+                detail += ": zero-byte client identifier with CleanSession = 0 [MQTT-3.1.3-7]"
+                clause = "connect311-empty-client-id-without-clean-session"
+        out.append((clause, detail, p["last_step"]))
+    return out
+
+
 def mon_C03(walk, d):
     """engine level: a well-formed packet is decoded whatever earlier connections fed the decoder"""
     return [x for x in mon_C11(walk, d) if x[0] == "conformant-packet-undecodable"]
 
 
-MONITORS = {"C03": mon_C03, "C01": mon_C01, "C04": mon_C04, "C05": mon_C05, "C06": mon_C06, "C07": mon_C07, "C09": mon_C09, "C10": mon_C10,
+MONITORS = {"C02": mon_C02, "C03": mon_C03, "C01": mon_C01, "C04": mon_C04, "C05": mon_C05, "C06": mon_C06, "C07": mon_C07, "C09": mon_C09, "C10": mon_C10,
             "C11": mon_C11, "C14": mon_C14, "C15": mon_C15, "C16": mon_C16, "C17": mon_C17, "C18": mon_C18}
 for _p in WF_FAMILIES:
     if _p in MONITORS:
